@@ -44,9 +44,12 @@ def gen_random(rng, count, min_res, max_res, min_wait, max_wait):
         nres = rng.randint(min_res, max_res)
         nwait = rng.randint(min_wait, max_wait)
         kinds = [rng.choice(RKINDS) for _ in range(nres)] + [rng.choice(WKINDS) for _ in range(nwait)]
-        force_assign = False
-        if nres == 0 and rng.random() < 0.5:
+        force_assign = force_bind = False
+        r0 = rng.random()
+        if nres == 0 and r0 < 0.35:
             force_assign = True          # nobody invokes the promise: its life ends by move-assignment of an empty promise
+        elif nres == 0 and r0 < 0.7:
+            force_bind = True            # ... or through promise::bind(): the bound function is called / moved and called / dropped
         elif rng.random() < 0.75 or nres == 0:
             kinds.append("d")
         rng.shuffle(kinds)
@@ -54,13 +57,15 @@ def gen_random(rng, count, min_res, max_res, min_wait, max_wait):
         n = len(threads)
         sched = random_sched(rng, n, rng.randint(0, 8 * n))
         T = rng.choice(TYPES)
+        if force_bind and T == "ref":
+            T = "int"
         if nres and rng.random() < 0.06:
             # a payload type whose construction throws inside set_value(), after the claim
             T = "thrower"
             threads = [("r throwv" if (t.startswith("r ") and rng.random() < 0.5) else t) for t in threads]
         c = make_case(threads, sched, T)
         pwd = None
-        if T in PWD_TYPES and rng.random() < 0.35:
+        if T in PWD_TYPES and not force_bind and rng.random() < 0.35:
             # the promise object is a promise_with_default (its destruction resolves with a default value instead of no-value):
             # the plain class with a run-time default, or (int only) the _v / _vp classes with a compile-time default
             variant = rng.choice(["def", "def", "defv", "defvp"]) if T == "int" else "def"
@@ -74,6 +79,10 @@ def gen_random(rng, count, min_res, max_res, min_wait, max_wait):
         elif "d" not in kinds and (force_assign or rng.random() < 0.5):
             # the controller ends the promise's life by move-assigning an empty promise over it (must drop the future)
             c["lines"].insert(len(c["lines"]) - 2, "assign-end")
+        elif "d" not in kinds and pwd is None and T not in ("ref", "thrower") and (force_bind or rng.random() < 0.6):
+            # the controller ends the promise's life through promise::bind(): the promise moves into a function object that is
+            # called (one more resolver call, after all threads), moved and called, or destroyed uncalled (must drop the future)
+            c["lines"].insert(len(c["lines"]) - 2, "bind-end %s %d" % (rng.choice(["call", "move", "drop"]), 30 + rng.randrange(9)))
         cases.append(c)
     return cases
 
@@ -107,6 +116,11 @@ def gen_exhaustive_triples(rng, length=9, shapes_n=12):
 def parse(case, out):
     """-> dict with threads (kinds), rets, obs, final, released, flags"""
     threads = [l.split() for l in case["lines"][1:] if l.split()[0] in ("r", "w", "d")]
+    for l in case["lines"][1:]:
+        w = l.split()
+        # (the controller's end phase does not happen when the scheduled threads deadlock)
+        if w[0] == "bind-end" and w[1] in ("call", "move") and "deadlock" not in out:
+            threads.append(["r", "value", w[2], "(bound function called by the controller)"])
     info = {"threads": threads, "rets": {}, "obs": {}, "final": None, "released": {}, "deadlock": False,
             "crash": False, "assert": None, "ops": [], "dtor_resolved": False, "counted": None, "anomalies": []}
     for l in out:
@@ -199,7 +213,7 @@ class ChainSuite(Suite):
             dl += 1 if "deadlock" in o else 0
         top = dict(sorted(shapes.items(), key=lambda kv: -kv[1])[:12])
         # API spellings / resolver kinds selected by the input (see harness/h_chain.cpp)
-        sp = {"pwd def": 0, "pwd defv": 0, "pwd defvp": 0, "pwd destroyed by a d thread": 0, "assign-from": 0, "assign-end": 0,
+        sp = {"bind-end": 0, "pwd def": 0, "pwd defv": 0, "pwd defvp": 0, "pwd destroyed by a d thread": 0, "assign-from": 0, "assign-end": 0,
               "value via operator()": 0, "value via static set/resolve (derived class)": 0, "throwv": 0}
         syncs = ["wait", "force_wait", "sync+value", "force_sync+value", "join", "operator*"]
         excs = ["operator()(temporary)", "operator()(named)", "set_value(const named)", "set_exception", "unhandled_exception"]
@@ -211,6 +225,9 @@ class ChainSuite(Suite):
                     sp["pwd " + l[1]] += 1
                     if any(t[0] == "d" for t in th):
                         sp["pwd destroyed by a d thread"] += 1
+                elif l[0] == "bind-end":
+                    sp["bind-end"] += 1
+                    sp["bind-end " + l[1]] = sp.get("bind-end " + l[1], 0) + 1
                 elif l[0] in ("assign-from", "assign-end"):
                     sp[l[0]] += 1
                     if l[0] == "assign-end" and any(x[0] == "pwd" for x in ls):
